@@ -116,6 +116,7 @@ func ruleKLock(w *World, r *Report) {
 		}
 	}
 	naccess := 0
+	var touching []*ssa.Function
 	for _, fn := range w.AllFuncs {
 		touches := false
 		eachInstr(fn, false, func(_ *ssa.Function, in ssa.Instruction) {
@@ -123,9 +124,31 @@ func ruleKLock(w *World, r *Report) {
 				touches = true
 			}
 		})
-		if !touches {
-			continue
+		if touches {
+			touching = append(touching, fn)
 		}
+	}
+	// helpers of the cache type that are only ever called with a lock held start
+	// in that lock state: the states at their call sites are collected in a dry
+	// run (two rounds: a helper of a helper), then the reporting run uses them
+	w.lockEntry = map[*ssa.Function]lockState{}
+	for round := 0; round < 2; round++ {
+		w.lockSites = map[*ssa.Function][]lockState{}
+		for _, fn := range touching {
+			w.lockFlow(newReport("", "", w), fn, ct, st, mutable)
+		}
+		for callee, states := range w.lockSites {
+			e := states[0]
+			for _, x := range states[1:] {
+				if x != e {
+					e = lsConflict
+				}
+			}
+			w.lockEntry[callee] = e
+		}
+	}
+	w.lockSites = nil
+	for _, fn := range touching {
 		r.FuncsAnalysed[fnName(fn)] = true
 		naccess += w.lockFlow(r, fn, ct, st, mutable)
 	}
@@ -239,6 +262,14 @@ func (w *World) lockFlow(r *Report, fn *ssa.Function, ct *types.Named, st *types
 					r.ok("K-LOCK", key, w.instrPos(x), "write under W")
 				}
 			case *ssa.Call:
+				// a helper method of the cache called on the same receiver: it starts in this lock state
+				if callee := x.Call.StaticCallee(); callee != nil && w.lockSites != nil && report && callee.Signature.Recv() != nil && len(x.Call.Args) > 0 && isRecv(x.Call.Args[0]) {
+					if n, ok := derefNamed(callee.Signature.Recv().Type()); ok && n == ct {
+						if _, isLock := w.lockCall(ins, ct); !isLock {
+							w.lockSites[callee] = append(w.lockSites[callee], s)
+						}
+					}
+				}
 				// dynamic call of a func-typed field (the loader) or len() of the map
 				if bi, ok := x.Call.Value.(*ssa.Builtin); ok && bi.Name() == "len" && len(x.Call.Args) == 1 {
 					if fi, ok := mapVals[x.Call.Args[0]]; ok && report {
@@ -289,9 +320,14 @@ func (w *World) lockFlow(r *Report, fn *ssa.Function, ct *types.Named, st *types
 					if deferred == "Unlock" && s == lsW || deferred == "RUnlock" && s == lsR {
 						eff = lsNone
 					}
-					if eff != lsNone {
+					switch {
+					case eff == w.lockEntry[fn] && eff != lsNone:
+						r.ok("K-LOCK", key, w.instrPos(x), "a helper called with "+eff.String()+" held returns with it held")
+					case eff != lsNone:
 						r.bad("K-LOCK", key, w.instrPos(x), fmt.Sprintf("returns while holding %s: the cache stays locked", s))
-					} else {
+					case w.lockEntry[fn] != lsNone:
+						r.bad("K-LOCK", key, w.instrPos(x), fmt.Sprintf("a helper that is called with %s held releases it: its caller goes on as if it still held the lock", w.lockEntry[fn]))
+					default:
 						r.ok("K-LOCK", key, w.instrPos(x), "no lock held at return")
 					}
 				}
@@ -299,6 +335,8 @@ func (w *World) lockFlow(r *Report, fn *ssa.Function, ct *types.Named, st *types
 		}
 		return s
 	}
+	entry := w.lockEntry[fn]
+	in[0] = entry
 	work := []*ssa.BasicBlock{fn.Blocks[0]}
 	visited[0] = true
 	for len(work) > 0 {
@@ -782,6 +820,7 @@ func (w *World) regexpGetters() []*ssa.Function {
 // captured argument query it was evaluated from.
 func (w *World) originFreeVar(v ssa.Value) *ssa.FreeVar {
 	seen := map[ssa.Value]bool{}
+	via := map[*ssa.Function]*ssa.Call{} // helper entered through this call
 	var walk func(v ssa.Value, d int) *ssa.FreeVar
 	walk = func(v ssa.Value, d int) *ssa.FreeVar {
 		if v == nil || seen[v] || d > 20 {
@@ -836,6 +875,17 @@ func (w *World) originFreeVar(v ssa.Value) *ssa.FreeVar {
 			if idx < 0 || n == nil {
 				return nil
 			}
+			if site := via[h]; site != nil {
+				// entered through this very call: its argument, not any caller's
+				if idx < len(site.Call.Args) {
+					outer := seen
+					seen = map[ssa.Value]bool{}
+					f := walk(site.Call.Args[idx], d+1)
+					seen = outer
+					return f
+				}
+				return nil
+			}
 			for _, e := range n.In {
 				site, ok := e.Site.(*ssa.Call)
 				if !ok || idx >= len(site.Call.Args) {
@@ -851,6 +901,24 @@ func (w *World) originFreeVar(v ssa.Value) *ssa.FreeVar {
 		case *ssa.Call:
 			if x.Call.IsInvoke() {
 				return walk(x.Call.Value, d+1)
+			}
+			// a helper of this package: what its result is made of (its
+			// parameters lead back to this call's arguments)
+			if h := x.Call.StaticCallee(); h != nil && w.inPkg(h) && h.Parent() == nil && len(h.Blocks) > 0 && h.Signature.Results().Len() == 1 && via[h] == nil {
+				via[h] = x
+				outer := seen
+				seen = map[ssa.Value]bool{}
+				var found *ssa.FreeVar
+				for _, hb := range h.Blocks {
+					if ret, ok := normalReturn(hb); ok && found == nil {
+						found = walk(retVal(ret, 0), d+1)
+					}
+				}
+				seen = outer
+				delete(via, h)
+				if found != nil {
+					return found
+				}
 			}
 			for i := len(x.Call.Args) - 1; i >= 0; i-- {
 				if f := walk(x.Call.Args[i], d+1); f != nil {
